@@ -822,6 +822,26 @@ def map_get(m, r, k):
     return SOME(Ref(mp.items[i], 1)) if i >= 0 else NONE()
 
 
+@model("BTreeMap::range")
+def btree_range(m, r, rng):
+    """entries whose key lies in the range (concrete integer keys and bounds)"""
+    mp = deref(r)
+    rg = deref(rng)
+    es = ordered_entries(m, mp)
+    lo, hi = None, None            # inclusive bounds
+    if isinstance(rg, Agg):
+        f = rg.fields
+        if rg.ty == "RangeToInclusive": hi = f[0]
+        elif rg.ty == "RangeTo": hi = f[0] - 1
+        elif rg.ty == "RangeFrom": lo = f[0]
+        elif rg.ty == "Range": lo, hi = f[0], f[1] - 1
+        elif rg.ty == "RangeInclusive": lo, hi = f[0], f[1]
+        elif rg.ty == "RangeFull": pass
+        else: raise Unsupported(f"BTreeMap::range over {rg.ty}")
+    if any(is_sym(x) for x in (lo, hi) if x is not None) or any(is_sym(e[0]) for e in es): raise Unsupported("BTreeMap::range with symbolic keys")
+    return ListIt([TUP(Ref(e, 0), Ref(e, 1)) for e in es if (lo is None or e[0] >= lo) and (hi is None or e[0] <= hi)])
+
+
 @model("IndexMap::contains_key", "HashMap::contains_key", "BTreeMap::contains_key", "HashSet::contains", "IndexSet::contains", "BTreeSet::contains")
 def map_contains(m, r, k):
     return find_key(m, deref(r), k) >= 0
